@@ -249,12 +249,16 @@ fn server(t: &mut Tape, obs: &mut Obs) -> R {
     let (v, random, sid, c, co, ext) = match &structured {
         Some(MHs::ServerHello { version, random, sid, cipher, comp, ext }) => (*version, random.clone(), sid.clone(), *cipher, *comp, ext.clone()),
         _ => {
-            let v = t.u16b();
+            let v = if t.bool() { gen_version(t) } else { t.u16b() };
             let random = t.small_blob(64);
             let sid = if t.bool() { Some(t.small_blob(40)) } else { None };
             let c = if t.bool() { tb.file[t.below(tb.file.len())].id } else { t.u16b() };
             let co = t.u8();
-            let ext = if t.bool() { Some(t.small_blob(40)) } else { None };
+            let ext = match t.below(3) {
+                0 => None,
+                1 => Some(t.small_blob(40)),
+                _ => Some(vec![0xff, 0x01, 0x00, 0x01, 0x00]),
+            };
             (v, random, sid, c, co, ext)
         }
     };
